@@ -14,6 +14,7 @@ CONSTANTS
   RangeSeq <- R6
   LimitSeq <- L4
   ShardCounts = {}
+  EmptyName = FALSE
   Mode = "sim"
   EmitMode = "none"
 INVARIANTS TypeOK EmitWalk
